@@ -461,6 +461,8 @@ struct Hist<'a> {
     trace: Vec<Value>,
     empty_run: u32,
     max_forgotten: u64,
+    /// blocks granted beyond MAX_BLOCKS_PER_HISTORY (very long waits)
+    cap_bonus: u32,
     restarts_since_max_forget: u64,
     wallet_idx: u32,
     aborted: Option<String>,
@@ -820,7 +822,7 @@ impl<'a> Hist<'a> {
         if self.dead() {
             return false;
         }
-        if self.chain.total_connected >= MAX_BLOCKS_PER_HISTORY {
+        if self.chain.total_connected >= MAX_BLOCKS_PER_HISTORY + self.cap_bonus {
             return false;
         }
         if txs.is_empty() {
@@ -2300,7 +2302,17 @@ impl<'a> Hist<'a> {
             if !self.chans[ci].forget_requested || self.rng.chance(1, 4) {
                 self.forget(ci);
             }
-            let n = 100 + self.rng.below(31) as u32;
+            // now and then the node's unswept output stays unswept for more than two thousand blocks (the depth at
+            // which `diagnostic` calls a swept main output "aged"): the channel must still be there afterwards, however
+            // long ago the main output or the other HTLC outputs were swept
+            let n = if self.rng.chance(1, 12) {
+                let n = 2017 + self.rng.below(40) as u32;
+                self.cap_bonus += n;
+                self.r.count("macro.htlc-sweep.partial-then-over-2016-blocks");
+                n
+            } else {
+                100 + self.rng.below(31) as u32
+            };
             self.long_wait(n);
         }
     }
@@ -2489,6 +2501,7 @@ fn run_history(rng: &mut Rng, r: &mut Report, ctx: Value, steps: u32) {
         trace: vec![],
         empty_run: 0,
         max_forgotten: 0,
+        cap_bonus: 0,
         restarts_since_max_forget: 0,
         wallet_idx: 0,
         aborted: None,
@@ -2996,6 +3009,7 @@ fn main() {
     report.require("survived.partial_sweep_100_blocks.second-level-output-unspent", if quick { 50 } else { 1000 });
     report.require("survived.htlc_sweep_reorged_out_100_blocks", if quick { 50 } else { 1000 });
     report.require("gone.legit.unilateral-with-htlcs", if quick { 10 } else { 200 });
+    report.require("macro.htlc-sweep.partial-then-over-2016-blocks", if quick { 3 } else { 30 });
     finish(
         report,
         FinishSpec {
